@@ -1,14 +1,36 @@
-(* C13 -- whatever the parser accepts can be printed and read back unchanged
-   (proved part, default dialect). See the header of each theorem; what is not
-   proved is listed in theorems.json and decided by the correspondence and the
-   oracle (accepted foreign texts under all option sets, parse/print/parse and
-   the fixed point on the text). *)
+(* C13 -- whatever the parser accepts can be printed and read back unchanged.
+   Proved for the default dialect: every value the default parser returns from
+   byte-slice or stream input -- for any input text at all -- lies in the class
+   of values that round-trip (C13_accepted_in_class), so when it contains no
+   float, printing it and parsing the text again, from any source, gives the
+   same value (C13_parse_print_parse_partial) and hence the same text again:
+   the fixed point is reached after one step. Floats (ryu is an oracle), other
+   option sets and &str as the first source (where the parser skips UTF-8
+   validation) are decided by the correspondence and the oracle only
+   (theorems.json). The proof found a genuine defect on the way: a dot-initial
+   symbol directly followed by a vertical bar, a double quote or NUL inside a list (fixed in /repo,
+   b08c6f9). *)
 From Coq Require Import SpecFloat.
 Require Import Base Value Float PrintOptions Printer ParseOptions Utf8 Reader Scan Num NumberOps Parser.
-Require Import TextProofs RoundtripProofs.
+Require Import TextProofs RoundtripProofs AcceptedProofs.
 
-(* parse . print is the identity on the covered class, so print . parse . print = print:
-   the fixed point is reached after one step *)
+Theorem C13_accepted_in_class : forall alpha fast std_parse k inp v, k <> SrcStr ->
+  from_trait default_ro alpha fast std_parse k inp = POk v ->
+  rt_okf alpha v /\ (rdepth v <= 127)%nat.
+Proof. exact accepted_in_class. Qed.
+Print Assumptions C13_accepted_in_class.
+
+Theorem C13_float_free_in_c01_class : forall alpha v, rt_okf alpha v -> float_free v -> rt_ok alpha v.
+Proof. exact rt_okf_float_free. Qed.
+Print Assumptions C13_float_free_in_c01_class.
+
+Theorem C13_parse_print_parse_partial : forall alpha fast std_parse ryu k k' inp v, k <> SrcStr ->
+  from_trait default_ro alpha fast std_parse k inp = POk v -> float_free v ->
+  from_trait default_ro alpha fast std_parse k' (bytes_events (print0 ryu v)) = POk v.
+Proof. exact accepted_roundtrip. Qed.
+Print Assumptions C13_parse_print_parse_partial.
+
+(* parse . print is the identity on the class, so print . parse . print = print *)
 Theorem C13_fixed_point_partial : forall ryu alpha fast std_parse k v,
   rt_ok alpha v -> (rdepth v <= 127)%nat ->
   exists v', from_trait default_ro alpha fast std_parse k (bytes_events (print0 ryu v)) = POk v' /\
@@ -18,3 +40,16 @@ Proof.
   split; [exact (roundtrip_from_trait ryu alpha fast std_parse k v Hok Hd)|]. split; reflexivity.
 Qed.
 Print Assumptions C13_fixed_point_partial.
+
+(* a foreign text: comments, brackets, radix literal, quote shorthand, a dotted
+   tail that is a list, redundant spaces *)
+Example C13_nonvacuous :
+  let text := s2b "( a  ;c
+ [b . (c)] #x1F '#(1 -2) .d . ""e"")" in
+  let run k inp := from_trait default_ro (fun _ => true) true dec_to_f64 k inp in
+  match run SrcSlice (bytes_events text) with
+  | POk v => float_free v /\ print0 (fun _ => []) v = s2b "(a (b c) 31 (quote #(1 -2)) .d . ""e"")" /\
+             run SrcIo (bytes_events (print0 (fun _ => []) v)) = POk v
+  | PErr _ => False
+  end.
+Proof. vm_compute. repeat split; reflexivity. Qed.
